@@ -12,10 +12,10 @@ EPS = float(np.finfo(float).eps)
 EPS2 = EPS * EPS
 
 
-def vectors(cx, names, lattice=True):
+def vectors(cx, names, lattice=True, rank3=True):
     """abstract vectors in symbolic mode; float vectors (model realisation or random incl. lattice/degenerate) otherwise"""
     if cx.mode == "sym":
-        G = gram.GramSpace(cx, names)
+        G = gram.GramSpace(cx, names, rank3=rank3)
         return [G.vec(n) for n in names]
     have = all(("g_%s_%s" % (a, a)) in cx.values for a in names)
     if have:
